@@ -234,12 +234,17 @@ func (s *Scalar) LessOrEqual(t *Scalar) uint64 {
 	var (
 		borrow uint64
 		diff   [4]uint64
+		sn, tn scalar.NonMontgomeryDomainFieldElement
 	)
 
-	diff[0], borrow = bits.Sub64(s.S[0], t.S[0], borrow)
-	diff[1], borrow = bits.Sub64(s.S[1], t.S[1], borrow)
-	diff[2], borrow = bits.Sub64(s.S[2], t.S[2], borrow)
-	diff[3], borrow = bits.Sub64(s.S[3], t.S[3], borrow)
+	// The order is that of the canonical integer values, not of their Montgomery representations.
+	scalar.FromMontgomery(&sn, &s.S)
+	scalar.FromMontgomery(&tn, &t.S)
+
+	diff[0], borrow = bits.Sub64(sn[0], tn[0], borrow)
+	diff[1], borrow = bits.Sub64(sn[1], tn[1], borrow)
+	diff[2], borrow = bits.Sub64(sn[2], tn[2], borrow)
+	diff[3], borrow = bits.Sub64(sn[3], tn[3], borrow)
 
 	equal := scalar.IsZero(diff[0] | diff[1] | diff[2] | diff[3])
 
